@@ -77,6 +77,7 @@ def run_cli(args, timeout=120):
     return p.returncode, p.stdout, p.stderr
 
 def run(ctx):
+    ctx.explanation = ("partial: theorems cover the CLI's own glue (re-chunking, --limit, inspect arithmetic) composed with C01; Arrow CSV/Parquet parsing, number/timestamp formatting and option handling are exercised by differential runs of the real binary only; Parquet input is not exercised; known finding: Arrow's CSV writer panics on pre-epoch fractional timestamps")
     rng = ctx.rng
     ctx.rule = ("cli stream: CSV columns of i16/i32/i64/u16/u32/u64/f32/f64 and both 64-bit timestamp types, 1..3000 rows, through "
                 "/repo's qcompress binary (built from the working tree): compress with chunk sizes 1..>rows, levels, explicit and "
